@@ -16,6 +16,7 @@ package main
 //     the same inputs.
 
 import (
+	"sync"
 	"bytes"
 	"encoding"
 	"encoding/json"
@@ -836,12 +837,14 @@ type c17TE uint32
 type c17TM int32
 type c17TM2 int32
 type c17TM3 int32
+type c17TM4 int32
 
 const (
 	c17tE  = 0x540101
 	c17tM  = 0x540102
 	c17tM2 = 0x540103
 	c17tM3 = 0x540104
+	c17tM4 = 0x540105
 )
 
 var c17testTags = []struct {
@@ -880,8 +883,56 @@ func c17registerTestEntries() *reg.Snapshot {
 	return reg.FromLive()
 }
 
+// c17gapMask: a bit mask registered with reserved (unnamed) bits between named flags - legal for
+// RegisterBitmask, and the pinned masks have none: whatever is written for a value (names for the
+// named flags) is read back as the same number.  Oracle only; registered after the snapshot of the
+// test registry was taken, so that the unnamed entries are not part of the model's registry.
+var c17gapOnce sync.Once
+
+func (d *c17run) gapMaskCases() {
+	c := d.c
+	names := []string{"Read", "", "Write", "Delete", "", "", "Exec", "Admin"}
+	c17gapOnce.Do(func() { ttlv.RegisterBitmask[c17TM4](c17tM4, names...) })
+	var named []int
+	for i, n := range names {
+		if n != "" {
+			named = append(named, i)
+		}
+	}
+	for sub := 1; sub < 1<<len(named); sub++ {
+		var v int64
+		for k, i := range named {
+			if sub>>k&1 == 1 {
+				v |= 1 << i
+			}
+		}
+		c.Eval(fmt.Sprintf("gapmask/%d", v), true)
+		c.Count("mask-value:reserved-gaps")
+		cas := map[string]any{"kind": "test-registry", "masktag": int64(c17tM4), "value": v}
+		for f := fXML; f <= fJSON; f++ {
+			w := c17write(f, "Integer", func(e *ttlv.Encoder) { e.Bitmask(0, c17tM4, int32(v)) })
+			if w.Panic != "" {
+				d.fail("C17/mask-rt/writer-panic/"+c17formName[f], fmt.Sprintf("Bitmask(0x%X, %d) panicked: %s", c17tM4, v, w.Panic), cas)
+				continue
+			}
+			r := c17readMask(f, 0, c17tM4, c17jval{Str: w.Val})
+			if !(r.Ok && r.Val == v) {
+				d.fail("C17/mask-rt/"+c17formName[f]+"/reserved-gaps", fmt.Sprintf("bit mask with reserved bits %q: value 0x%X is written %q in %s and read back as %s", names, v, w.Val, c17formName[f], r), cas)
+			}
+		}
+	}
+	for _, i := range named {
+		c.Eval(fmt.Sprintf("gapmask/name/%d", i), true)
+		if back, err := ttlv.BitmaskByStr(c17tM4, names[i]); err != nil || int64(back) != 1<<i {
+			d.fail("C17/mask-rt/by-name/reserved-gaps", fmt.Sprintf("bit mask with reserved bits %q: flag %q is bit %d, BitmaskByStr gives 0x%X (%v)", names, names[i], i, int64(back), err),
+				map[string]any{"kind": "test-registry", "masktag": int64(c17tM4), "flag": names[i]})
+		}
+	}
+}
+
 func (d *c17run) testRegistryCases() {
 	c := d.c
+	d.gapMaskCases()
 	// tags: same treatment as the library's (written forms, read back, reader on the names)
 	known := map[int64]string{}
 	for _, e := range d.live.TagNames {
